@@ -298,7 +298,11 @@ harness! {
 struct AdvScale;
 impl ScaleFunction for AdvScale {
     fn delta(&self) -> f64 { 2. }
-    fn f(&self, _q: f64, _n: usize) -> f64 { let v: f64 = any(); assume(!v.is_nan()); v }
+    fn f(&self, _q: f64, _n: usize) -> f64 {
+        // merge() normalises by the TOTAL WEIGHT: the rank handed to the scale function lies in [0, 1]
+        assert!(_q >= 0. && _q <= 1. + 1e-9, "C11 C15 merge hands the scale function a rank in [0,1]");
+        let v: f64 = any(); assume(!v.is_nan()); v
+    }
     fn f_inv(&self, _k: f64, _n: usize) -> f64 { let v: f64 = any(); assume(!v.is_nan()); v }
 }
 
